@@ -79,15 +79,16 @@ Definition accepted (vectorize : bool) (inp : arr * list nat) : bool :=
   let a := normalise (fst inp) in
   negb (is2d a) || ((ncols a =? length (snd inp))%nat && vectorize).
 
-(* CircuitTemplate.run(solver = euler | heun, inputs = ...) on the network, all units requested as outputs *)
-Definition run_inputs (s : solver) (vectorize : bool) (depth : nat) (T dt udef : Qc) (W : list row)
-           (inputs : list (arr * list nat)) (x0 : row) : outcome :=
+(* CircuitTemplate.run(solver = euler | heun, inputs = ..., sampling_step_size = dts, cutoff = ...) on the network, all
+   units requested as outputs; the input arrays are indexed with the step counter whatever the sampling step *)
+Definition run_inputs (s : solver) (vectorize : bool) (depth : nat) (T dt : Qc) (dts : option Qc) (cutoff udef : Qc)
+           (W : list row) (inputs : list (arr * list nat)) (x0 : row) : outcome :=
   (* `depth` = hierarchy depth of the circuit: since fix D89 (_add_input_node nests CircuitTemplate objects) the input
      node is placed in input_lvl_i circuits of the same depth and the result does not depend on it (before: any input at
      depth >= 2 raised AttributeError, D30) *)
   if negb (forallb (accepted vectorize) inputs) then ErrShape           (* (N,n) needs vectorize and n = #targets *)
   else if existsb (fun inp => (alen (fst inp) <? rnd (T / dt))%nat) inputs then ErrIndex   (* index(inp, t) past the end *)
-  else run_model (net_rhs udef W inputs) s T dt None 0%Qc (seq 0 (length x0)) x0 tt.
+  else run_model (net_rhs udef W inputs) s T dt dts cutoff (seq 0 (length x0)) x0 tt.
 
 (* get_run_func(inputs = ..., solver = 'scipy'): the vector field at time t, state x; T = N * step_size *)
 Definition vf_adaptive (dt udef : Qc) (W : list row) (inputs : list (arr * list nat)) (t : Qc) (x : row) : option row :=
@@ -121,8 +122,8 @@ Definition spec_u (inputs : list (arr * list nat)) (i k : nat) : Qc :=
 Definition spec_rhs (udef : Qc) (W : list row) (inputs : list (arr * list nat)) (c : unit) (k : nat) (x : row) : row * unit :=
   (map (fun i => (base udef W inputs i + spec_u inputs i k + dot (nth i W []) x)%Qc) (seq 0 (length x)), c).
 
-Definition spec_run_inputs (s : solver) (T dt udef : Qc) (W : list row) (inputs : list (arr * list nat)) (x0 : row) : list row :=
-  spec_run (spec_rhs udef W inputs) s T dt None 0%Qc (seq 0 (length x0)) x0 tt.
+Definition spec_run_inputs (s : solver) (T dt : Qc) (dts : option Qc) (cutoff udef : Qc) (W : list row) (inputs : list (arr * list nat)) (x0 : row) : list row :=
+  spec_run (spec_rhs udef W inputs) s T dt dts cutoff (seq 0 (length x0)) x0 tt.
 
 (* guards *)
 Definition NoDupb (l : list nat) : bool :=
